@@ -21,6 +21,8 @@ type Case struct {
 	InPkgOnly  bool   // mentions unexported source types: only for in-package placements
 	Isolated   bool   // touches file-global names of the templates (imports named mock/sync/fmt): generated alone so that a failure cannot poison other cases
 	Methods    []string // method names of the full method set (for C02 bookkeeping)
+	TParamDecl string   // type parameter list as written, e.g. "[K comparable, V any]" ("" if not generic)
+	Variadic   map[string]bool // method name -> variadic
 }
 
 const Prelude = `package src
@@ -244,7 +246,47 @@ func Corpus(o Options) []Case {
 				iso = true
 			}
 		}
-		cases = append(cases, Case{ID: id, Name: name, Decl: decl, TypeParams: nT, InPkgOnly: inPkg, Methods: methods, TArgs: targs, Isolated: iso})
+		va := map[string]bool{}
+		for _, l := range strings.Split(body, "\n") {
+			l = strings.TrimSpace(l)
+			if i := strings.Index(l, "("); i > 0 {
+				// the method's own parameter list ends at the matching parenthesis
+				depth, end := 0, -1
+				for j := i; j < len(l) && end < 0; j++ {
+					switch l[j] {
+					case '(':
+						depth++
+					case ')':
+						depth--
+						if depth == 0 {
+							end = j
+						}
+					}
+				}
+				if end > 0 {
+					params := l[i+1 : end]
+					// variadic iff the last top-level parameter starts with "..."
+					last, d := params, 0
+					for j := 0; j < len(params); j++ {
+						switch params[j] {
+						case '(', '[', '{':
+							d++
+						case ')', ']', '}':
+							d--
+						case ',':
+							if d == 0 {
+								last = params[j+1:]
+							}
+						}
+					}
+					f := strings.Fields(last)
+					if len(f) > 0 && (strings.HasPrefix(f[0], "...") || len(f) > 1 && strings.HasPrefix(f[1], "...")) {
+						va[l[:i]] = true
+					}
+				}
+			}
+		}
+		cases = append(cases, Case{ID: id, Name: name, Decl: decl, TypeParams: nT, InPkgOnly: inPkg, Methods: methods, TArgs: targs, Isolated: iso, TParamDecl: tparams, Variadic: va})
 	}
 	simpleT := [][]string{{"int"}, {"string"}, {"src.LT"}, {"error"}}
 	// baseline
@@ -261,7 +303,17 @@ func Corpus(o Options) []Case {
 	}
 	if o.Forms {
 		// ---- signature forms
-		sig := func(id, m string) { add("sig:"+id, "\t"+m+"\n", "", 0, false, []string{"M"}, nil, "") }
+		sig := func(id, m string) {
+			var names []string
+			for _, l := range strings.Split(m, "\n") {
+				l = strings.TrimSpace(l)
+				if i := strings.Index(l, "("); i > 0 {
+					names = append(names, l[:i])
+				}
+			}
+			sort.Strings(names)
+			add("sig:"+id, "\t"+m+"\n", "", 0, false, names, nil, "")
+		}
 		sig("no params no results", "M()")
 		sig("no params", "M() int")
 		sig("no results", "M(a int)")
